@@ -17,7 +17,7 @@ Profile profile_for(const std::string &prop) {
     else if (prop == "C11") { W({"treetbl", "hashtbl", "hasharr", "listtbl", "list", "vector"}); M({"seq", "seq", "seq", "threads"}); }
     else if (prop == "C12") { W({"treetbl", "hashtbl", "hasharr", "listtbl", "list", "vector"}); M({"seq"}); }
     else if (prop == "C13") { W({"treetbl", "hashtbl", "listtbl", "list", "vector"}); M({"threads"}); }
-    else if (prop == "C14") { W({"treetbl", "hashtbl", "listtbl", "list", "vector", "qlog"}); M({"lockbal"}); }
+    else if (prop == "C14") { W({"treetbl", "hashtbl", "listtbl", "list", "vector", "qlog"}); M({"lockbal", "lockbal", "lockbal", "threads"}); }
     else if (prop == "C15") { W({"treetbl", "hashtbl", "hasharr", "listtbl", "list", "vector"}); M({"enum", "enum", "enum", "seq"}); }
     return p;
 }
@@ -75,7 +75,11 @@ Plan generate_plan(const std::string &prop, const std::string &tier, uint64_t ba
         for (int i = 0; i < h; i++) ops.push_back(w->gen_op(r, prop, p.mode, g));
         int tgt = (int)ops.size();
         if (r.chance(1, 12)) tgt = -1;                   // the constructor is the target
-        else ops.push_back(w->gen_op(r, prop, p.mode, g));
+        else {
+            Op t = w->gen_op(r, prop, p.mode, g);
+            if (p.mode == "lockbal" && r.chance(1, 4)) t.h = 1;      // issued inside the client's own lock()/unlock() section
+            ops.push_back(t);
+        }
         for (int i = 0; i < s; i++) ops.push_back(w->gen_op(r, prop, p.mode, g));
         p.cfg.set("tgt", tgt);
         p.cfg.set("nops", (long)ops.size());
@@ -91,7 +95,7 @@ Plan generate_plan(const std::string &prop, const std::string &tier, uint64_t ba
             p.clients.push_back(ops);
         }
         p.cfg.set("p_cont", r.pick(std::vector<int>{20, 50, 70, 90}));
-        p.cfg.set("stall", (variant == "tsan") ? 0 : (r.chance(1, 5) ? r.pick(std::vector<int>{30, 100}) : 0));
+        p.cfg.set("stall", (variant == "tsan") ? 0 : (prop == "C14" ? r.pick(std::vector<int>{100, 300}) : (r.chance(1, 5) ? r.pick(std::vector<int>{30, 100}) : 0)));
         p.cfg.set("prefill", r.range(0, 4));
     }
     return p;
@@ -101,6 +105,7 @@ Plan generate_plan(const std::string &prop, const std::string &tier, uint64_t ba
 struct SeqOpts { int ctor_fk = 0, ctor_fm = 0; bool probe = false; int probe_at = -1; };
 
 static void check_dump(World &w, Model &m, Ctx &x, const char *when) {
+    Bookkeeping bk;
     std::string sd = w.sut_dump(x), md = m.dump();
     if (sd != md) x.fail("contents-mismatch", "result", std::string("observable contents differ from the model ") + when + ": table " + hexs(sd, 120) + " model " + hexs(md, 120));
 }
@@ -110,6 +115,7 @@ static void run_seq_body(const Plan &p, World &w, Ctx &x, const SeqOpts &so) {
     std::unique_ptr<Model> model(w.new_model());
     sim_alloc_reset();
     sim_lock_depth_reset();
+    sim_errno_reset();
     bool ts = p.cfg.get("ts") != 0;
     const std::vector<Op> &ops = p.clients.empty() ? *new std::vector<Op>() : p.clients[0];
     bool created = false;
@@ -132,18 +138,30 @@ static void run_seq_body(const Plan &p, World &w, Ctx &x, const SeqOpts &so) {
             if (!ok) x.fail("ctor-failed", "harness", "constructor failed without an injected fault");
         } else if (fired) x.st.add("fault.ctor_survived");
         created = true;
+        int total_fired = 0;
         for (size_t i = 0; i < ops.size(); i++) {
-            const Op &op = ops[i];
-            x.cur_op = (int)i; x.cur_opname = w.opnames()[op.k];
+            x.cur_op = (int)i; x.cur_opname = w.opnames()[ops[i].k];
             std::unique_ptr<Model> before;
-            std::string dump_before;
+            Op op2 = ops[i];
+            { Bookkeeping bk; w.sut_prepare(op2); }
+            const Op &op = op2;
             if (op.fk) { before.reset(model->clone()); }
             Result exp = model->apply(op);
             int d0 = sim_lock_depth();
+            bool held = op.h && ts && w.sut_user_lock();
+            if (held) x.st.add("probe.op_under_client_lock");
             sim_op_begin((int)i, op.fk, op.fm);
             Result got = w.sut_apply(op, x);
             int fired = sim_fault_fired();
             int allocs = sim_op_end();
+            if (held) {
+                int dc0 = sim_take_depth_change();
+                if (dc0 != 0 || sim_lock_depth() != d0 + 1) {
+                    x.fail("lock-depth", "lock", w.render(op) + " called while the client held the lock returned " + got.show() + " with the lock depth changed (the client's critical section is open)");
+                }
+                w.sut_force_unlock();
+            }
+            total_fired += fired;
             if ((int)i == (int)p.cfg.get("tgt", -2)) x.tgt_allocs = allocs;
             x.st.add("ops");
             x.st.add("allocs", (uint64_t)allocs);
@@ -181,16 +199,19 @@ static void run_seq_body(const Plan &p, World &w, Ctx &x, const SeqOpts &so) {
                     // reported failure under an injected fault: contents must be exactly what they were
                     model.reset(before.release());
                     x.st.add("fault.reported_failure");
-                    std::string sd = w.sut_dump(x), md = model->dump();
+                    std::string sd, md = model->dump();
+                    { Bookkeeping bk; sd = w.sut_dump(x); }
                     if (sd != md) x.fail("state-changed-after-failed-call", "enomem", w.render(op) + " reported failure under allocation fault #" + num(op.fk) + (op.fm == 2 ? " (sticky)" : "") + " but contents changed: table " + hexs(sd, 100) + " expected " + hexs(md, 100));
                 } else if (fired > 0) {
                     x.fail("wrong-result-under-fault", "enomem", w.render(op) + " under allocation fault #" + num(op.fk) + " returned " + got.show() + " expected " + exp.show());
+                } else if (x.o_enomem && total_fired > 0) {
+                    x.fail("misbehaves-after-fault", "enomem", "after an earlier injected allocation failure, " + w.render(op) + " returned " + got.show() + " expected " + exp.show());
                 } else {
                     x.fail("result-mismatch", "result", w.render(op) + " returned " + got.show() + " expected " + exp.show());
                 }
             } else if (fired > 0) x.st.add("fault.survived");
             if (w.is_mutation(op) && !got.fail) x.mutations++;
-            if (x.o_struct) w.sut_struct(x);
+            if (x.o_struct) { Bookkeeping bk; w.sut_struct(x); }
             if (x.o_alias && w.is_mutation(op)) x.verify_pool("after a later mutation");
             if ((x.o_result || x.o_enomem) && ((i & 15) == 15 || fired > 0)) check_dump(w, *model, x, "after the operation");
         }
@@ -215,7 +236,7 @@ static void run_seq_body(const Plan &p, World &w, Ctx &x, const SeqOpts &so) {
 // ------------------------------------------------------------------ threads execution
 static void run_threads_body(const Plan &p, World &w, Ctx &x, RunOut &out, bool replay_sched) {
     std::unique_ptr<Model> model(w.new_model());
-    sim_alloc_reset(); sim_lock_depth_reset(); sim_race_reset();
+    sim_alloc_reset(); sim_lock_depth_reset(); sim_race_reset(); sim_errno_reset();
     size_t nc = p.clients.size();
     try {
         sim_op_begin(-1, 0, 0);
